@@ -72,6 +72,11 @@ func (p *Parser) nextToken() error {
 		// lookahead in place made them see the same token again and again
 		// ("[ 1 ) ]" never returned and nested without bound); after a lexical
 		// error the input ends here and the error is reported by ParseObject.
+		if err == io.EOF {
+			// The input ended inside a token (a clean end is a TokenEOF, not an
+			// error): callers must not take this for a normal end of input.
+			err = io.ErrUnexpectedEOF
+		}
 		p.err = err
 		p.peekToken = &Token{Type: TokenEOF}
 		return err
